@@ -350,6 +350,14 @@ def _roundtrip_table(prog: Program, ctx: Ctx) -> None:  # noqa: PLR0912,PLR0915
             n += 1
             ctx.ob("R6", f"signature|{style}|{kind}|defaults|warn_unknown_params={warn}", gotd == [("x", "1"), ("y", None)],
                    f"{style}: defaults of the {kind} items x (signature default 1) and y (none), warn_unknown_params={warn}: {gotd}", where(fn))
+    # item names are identifiers: upper-case and mixed-case ones are names like any other
+    for style, kind in itertools.product(("google", "numpy"), ("parameters", "attributes", "returns", "yields", "receives")):
+        secs = [(kind, [("X", "int", ["Upper-case name."]), ("nRows", "int", ["Mixed case."]), ("Y_pred", None, ["Untyped."])])]
+        got = parse(style, _render(style, secs), parent())
+        want = _expected(secs)
+        n += 1
+        ctx.ob("R6", f"names|{style}|{kind}|upper and mixed case", got == want, f"{style}: {kind} items named X, nRows, Y_pred: {got}" + ("" if got == want else f"; written: {want}"),
+               where(prog.function(f"_griffe.docstrings.{style}.parse_{style}")))
     # Examples: console snippets are left as written with trim_doctest_flags=False; with True (default) the `# doctest:` flags go away and `<BLANKLINE>`
     # lines become empty lines
     ex_lines = [">>> print(f(1))  # doctest: +SKIP", "a", "<BLANKLINE>", "b"]
